@@ -19,7 +19,7 @@
    `flat` code.  history_equiv is proved in the form "every operation of the history starts from and ends in a
    clean state"; that equal clean states give equal results is determinism of the (pure) model function. *)
 From Coq Require Import ZArith List Bool Lia.
-From KV.rt Require Import GenRtConsts RtModel RtProofs RtRun.
+From KV.rt Require Import GenRtConsts RtModel RtProofs RtRun GenReplFlags ReplModel ReplProofs.
 Import ListNotations.
 Open Scope Z_scope.
 
@@ -121,3 +121,45 @@ Example class_history_outcomes :
                 HRun 5 (Call 3 5 (Try (Call 3 5 Tick) Nop)); HCallKoto 2 5 (Call 3 5 Fail); HCompileError; HRun 5 Nop] fresh)
   = [HErr EThrown; HErr ETimeout; HErr EThrown; HErr EThrown; HOk].
 Proof. vm_compute. reflexivity. Qed.
+
+(* ---- the REPL (crates/cli/src/repl.rs): one runtime instance driven line by line ------------------------------
+   ReplModel.on_line is transcribed from Repl::on_line; WHERE continued_lines is reset is regenerated from the
+   source text (GenReplFlags.v), so the proofs below are about the checked-out repl.rs: each `eq_refl` is the claim
+   that the corresponding exit path clears the buffer. *)
+
+(* after ANY step that ends an entry — the chunk ran (Ok or runtime error), a help query, a compile error that is
+   not "needs more input", Ctrl-C — the buffer of continued lines is empty, whatever compiler and runtime answered *)
+Theorem buffer_empty_after_run : forall st e a st',
+  step st e = (a, st') -> ends_entry a = true -> continued st' = [].
+Proof. exact (step_empties eq_refl eq_refl eq_refl eq_refl eq_refl eq_refl). Qed.
+
+(* .. at every such point of every session *)
+Theorem buffer_empty_after_run_in_sessions : forall es st acts fin, session es st = (acts, fin) ->
+  forall n a, nth_error acts n = Some a -> ends_entry a = true ->
+  continued (snd (session (firstn (S n) es) st)) = [].
+Proof. exact (session_buffer eq_refl eq_refl eq_refl eq_refl eq_refl eq_refl). Qed.
+
+(* a REPL session behaves like running its completed chunks in order on the one runtime: everything that is handed
+   to koto.run during a session, in order, followed by the lines still pending, is a SUBLIST of the typed lines —
+   order preserved, no line is ever executed twice (a failed entry is not re-submitted), nothing is invented *)
+Theorem session_equals_chunks : forall es acts fin, session es repl_start = (acts, fin) ->
+  Sub (ran_lines acts ++ continued fin) (typed_lines es).
+Proof.
+  intros es acts fin H.
+  exact (session_sub eq_refl eq_refl eq_refl eq_refl eq_refl eq_refl es repl_start [] [] acts fin H (Sub_nil)).
+Qed.
+
+Print Assumptions buffer_empty_after_run.
+Print Assumptions buffer_empty_after_run_in_sessions.
+Print Assumptions session_equals_chunks.
+
+(* non-vacuity: `for i in 1..3` / `  push` / `  throw` / blank (runs, fails) / `counter` (runs alone) *)
+Example repl_failed_multiline_entry :
+  let L := fun i b => mkLine i b 0 in
+  let o := fun c r m => mkOracle c false r m in
+  let es := [Line (L 1 false) (o CIndent true false); Line (L 2 false) (o COk true false);
+             Line (L 3 false) (o COk true false); Line (L 0 true) (o COk false false);
+             Line (L 4 false) (o COk true false)] in
+  map chunk_of (fst (session es repl_start)) = [[]; []; []; [L 1 false; L 2 false; L 3 false]; [L 4 false]]
+  /\ continued (snd (session es repl_start)) = [].
+Proof. vm_compute. split; reflexivity. Qed.
